@@ -748,6 +748,25 @@ func c04R13(ic *IC, r *Report) {
 						guarded = true
 					}
 				}
+				// or an earlier statement of the same block that handles the redeclared case and leaves
+				path := enclosingPath(fl.Body, as)
+				for i := len(path) - 1; i > 0; i-- {
+					blk, ok := path[i-1].(*ast.BlockStmt)
+					if !ok {
+						continue
+					}
+					for _, st := range blk.List {
+						if st == path[i] {
+							break
+						}
+						if ifs, ok := st.(*ast.IfStmt); ok && mentionsRedecl(ifs.Cond) && len(ifs.Body.List) > 0 {
+							switch ifs.Body.List[len(ifs.Body.List)-1].(type) {
+							case *ast.BranchStmt, *ast.ReturnStmt:
+								guarded = true
+							}
+						}
+					}
+				}
 				r.Check(guarded, "R04.13", fmt.Sprintf("assign/closure#%d/slot-replaced-unless-redeclared", k+1), ic.pos(as.Pos()), "a destination already declared in the scope keeps its variable",
 					"the closure executing a multiple definition replaces the slot of every destination by a new variable ("+types.ExprString(as.Lhs[0])+" = "+types.ExprString(as.Rhs[0])+") without testing node.redeclared: in a := 1; p := &a; a, c := 2, 3 the variable a is re-created, *p keeps 1 and closures over a keep the old variable, where compiled Go assigns the existing a")
 				return true
